@@ -3,6 +3,8 @@ import DnaModel.Gen.Tables
 import DnaModel.Model.Seq
 import DnaModel.Model.Loc
 import DnaModel.Model.Pattern
+import DnaModel.Model.Space
 import DnaModel.Props.C18
 import DnaModel.Props.C19
 import DnaModel.Props.C11
+import DnaModel.Props.C15
